@@ -25,7 +25,9 @@ def kfFlags (c : GenCfg) : List (String × GenCfg) :=
   (if c.lcRootZero then [("lc-root-zero", { c with lcRootZero := false })] else []) ++
   (if c.lcScalarSliceZero then [("lc-scalar-slice-zero", { c with lcScalarSliceZero := false })] else []) ++
   (if c.lcStructStopPanics then [("lc-struct-stop-panics", { c with lcStructStopPanics := false })] else []) ++
-  (if c.lcElemStopZero then [("lc-elem-stop-zero", { c with lcElemStopZero := false })] else [])
+  (if c.lcElemStopZero then [("lc-elem-stop-zero", { c with lcElemStopZero := false })] else []) ++
+  (if c.deqPtrLeafNilUnchecked then [("deq-ptr-leaf-nil", { c with deqPtrLeafNilUnchecked := false })] else []) ++
+  (if c.deqNilBeforeMustCheck then [("deq-nil-before-mustcheck", { c with deqNilBeforeMustCheck := false })] else [])
 
 def allFixed (c : GenCfg) : GenCfg :=
   (kfFlags c).foldl (fun _acc _x => GenCfg.fixed) c
@@ -140,6 +142,55 @@ def opLC (st : St) (head pathToks argToks outToks : List String) : String :=
     | _, _, _, _, _ => "skip unresolved-input"
   | _, _, _ => "skip bad-record"
 
+def parseDeqOut : String → Option DeqOut
+  | "t" => some .t
+  | "f" => some .f
+  | "panic" => some .panic
+  | _ => none
+
+def showDeqOut : DeqOut → String
+  | .t => "t" | .f => "f" | .panic => "panic"
+
+instance : BEq DeqOut := ⟨fun a b => decide (a = b)⟩
+
+/-- `-` (nil options) or `P<prec> E<n> name… F<n> name…`. -/
+def parseOpts : List String → Option (Option DeqOpts)
+  | ["-"] => some none
+  | p :: rest =>
+    if !p.startsWith "P" then none else do
+    let prec ← (p.drop 1).toString.toInt?
+    match rest with
+    | e :: rest =>
+      let ne ← (e.drop 1).toString.toNat?
+      let ex := (rest.take ne).map untok
+      match rest.drop ne with
+      | f :: rest2 =>
+        let nf ← (f.drop 1).toString.toNat?
+        let fi := (rest2.take nf).map untok
+        pure (some { precision := prec, exclude := ex, filter := fi })
+      | [] => none
+    | [] => none
+  | [] => none
+
+/-- D <tid> <fl> <fr> <vidA> <vidB> | <ident 0/1> | <opts> | <out(a,b)> <out(b,a)> -/
+def opDeq (st : St) (head identToks optToks outToks : List String) : String :=
+  match head, identToks, outToks with
+  | [_, tid, fl, fr, va, vb], [identTok], [oab, oba, _mut] =>
+    match st.types[tid]?, st.vals[va]?, st.vals[vb]?, parseForm fl, parseForm fr, parseOpts optToks, parseDeqOut oab, parseDeqOut oba with
+    | some n, some a, some b, some fl, some fr, some opts, some iab, some iba =>
+      let ident := identTok == "1"
+      let model (c : GenCfg) : DeqOut × DeqOut :=
+        (deqM { cfg := c, opts := opts, ident := ident } n fl fr a b, deqM { cfg := c, opts := opts, ident := ident } n fr fl b a)
+      let okOf (o : DeqOut × DeqOut) : Bool :=
+        match rootOf fl, rootOf fr with
+        | .ok, .ok =>
+          let t := eqS { opts := opts, ident := ident } n "" a b
+          deqAccepts t o.1 && deqAccepts t o.2 && o.1 == o.2
+        | _, _ => o.1 == o.2 || o.1 == .panic || o.2 == .panic    -- nil / foreign roots: symmetric; panics are C02's
+      classify st.cfg model okOf (iab, iba) (fun o => showDeqOut o.1 ++ "," ++ showDeqOut o.2)
+    | _, _, _, _, _, _, _, _ => "skip unresolved-input"
+  | _, _, _ => "skip bad-record"
+
 def handle (st : St) (line : String) : St × Option String :=
   match splitBar line with
   | ("T" :: tid :: toks) :: _ =>
@@ -162,6 +213,7 @@ def handle (st : St) (line : String) : St × Option String :=
     match head.head? with
     | some "C" => (st, some (opCmp st head path arg out))
     | some "LC" => (st, some (opLC st head path arg out))
+    | some "D" => (st, some (opDeq st head path arg out))
     | _ => (st, some "skip unknown-op")
   | _ => (st, some "skip malformed")
 
